@@ -42,7 +42,7 @@ def jobs(tier, seed):
         for m in ms:
             for lead in ((1,) if tier == "quick" and m != ms[0] else (1, 0)):
                 js.append(Job("independent.A%d.B%d.mask%x.lead%d" % (a, b, m, lead), "session_independence", "c12_independence.c", FUNCS, repo_sources=SRCS,
-                              defines=dict({"OFV_A": a, "OFV_B": b, "OFV_MASK": m, "OFV_LEAD": lead, "OPENFEC_VERIF_SPARSE_BLOCK": 64}, **({"OFV_BIG": 1} if max(a, b) in (24, 25) or min(a, b) in (24, 25) else {})), unwind=110, object_bits=12, timeout=400, mem_gb=4,
+                              defines=dict({"OFV_A": a, "OFV_B": b, "OFV_MASK": m, "OFV_LEAD": lead, "OPENFEC_VERIF_SPARSE_BLOCK": 64}, **({"OFV_BIG": 1} if max(a, b) in (24, 25) or min(a, b) in (24, 25) else {})), unwind=110, object_bits=12, timeout=1200, mem_gb=4,
                               status="bounded", relevant=r"^independent\.", native=False,
                               replace_calls=[("of_galois_field_2_8_addmul1", "stub_addmul1_2_8"), ("of_galois_field_2_4_addmul1", "stub_addmul1_2_4"), ("of_galois_field_2_4_addmul1_compact", "stub_addmul1_2_4_compact")],
                               checks=["--bounds-check", "--pointer-check", "--div-by-zero-check", "--no-malloc-may-fail"],   # memory safety is C07's subject; the GF kernels form a one-before pointer (section 10.3)
